@@ -237,9 +237,11 @@ def history_stream(ctx, res):
         kp = os.path.join(tmp, "sk-%d" % n[0])
         dest = os.path.join(tmp, "sd-%d" % n[0])
         cfg = s(key_filename=kp)
-        cfg.words = ["a", "", "b"]
+        cfg.words = ["a", "", "b"] + ([] if fmt == "xml" else ["a\x85b", "nbsp\xa0", "\u2028sep", "bom\ufeff", "first line\x85second line"])
         cfg.items = [0, "", False, [], {}, None, [""], {"k": ""}]
         cfg.table = {"empty": "", "none": None, "zero": 0, "nested": {"e": "", "l": [""]}}
+        if fmt != "xml":
+            cfg.table["k\x85"] = "v\x85"
         cfg.anything = ""
         cfg.empty = ""
         cfg.tokens = ["tok-1", "tok-2"]
@@ -284,6 +286,37 @@ def history_stream(ctx, res):
             if now != stamp:
                 res.violate("C19:other-key-file-touched", "saving a copied %s created / changed the default key file although the application names its own" % what, case2)
                 stamp = now
+    # (a3) a configuration that got SHORTER saved over the file of the longer one: the file holds exactly what serialisation produced
+    for fmt in FORMATS:
+        n[0] += 1
+        s = cc.Schema()
+        s.name = cc.StringField(default="n")
+        s.servers = cc.ListField(cc.StringField(), default=lambda: [])
+        s.notes = cc.StringField(default="")
+        dest = os.path.join(tmp, "short-%d.%s" % (n[0], fmt))
+        cfg = s()
+        case = {"stream": "save-shorter", "fmt": fmt}
+        res.case(stable(case), kind="save-shorter:" + fmt)
+        try:
+            sizes = []
+            for servers, notes in ((["host-%d.example.org" % i for i in range(12)], "x" * 200), (["a"], ""), (["host-%d" % i for i in range(5)], "y" * 20), ([], "")):
+                cfg.servers = servers
+                cfg.notes = notes
+                cfg.save(dest, fmt)
+                want = cfg.dumps(format=fmt)
+                got = open(dest, "rb").read()
+                sizes.append((len(want), len(got)))
+                if fmt in ("json", "xml", "yaml", "bson") and got != want:
+                    res.violate("C19:file-not-what-was-serialised", "after a successful save the file does not hold exactly the bytes that serialisation produced (an earlier, longer save "
+                                "left its tail behind)", dict(case, sizes=sizes))
+                    break
+                fresh = s()
+                fresh.load(dest, fmt)
+                if asdict(fresh) != asdict(cfg) or (fmt == "pickle" and len(got) != len(want)):
+                    res.violate("C19:file-not-what-was-serialised", "a shorter configuration saved over a longer one does not load back equal / leaves old bytes behind", dict(case, sizes=sizes))
+                    break
+        except Exception as e:  # noqa
+            res.violate("C19:reload-fails:save-shorter", "saving a shorter configuration over a longer one and loading it raised %s" % type(e).__name__, dict(case, error=str(e)[:100]))
     # (b)
     for fmt, optname, values in (("yaml", "root_key", ["server", "mode", "secret", "CONFIG", None, ""]), ("xml", "root_tag", ["server", "mode", "config", "host"])):
         for v in values:
